@@ -47,9 +47,13 @@ pub fn addmul(mut lhs: &mut [u64], mut a: &[u64], mut b: &[u64]) -> bool {
     }
 
     if a.is_empty() || b.is_empty() {
+        #[cfg(recmo_uint_verif)]
+        crate::verif_hooks::hit(crate::verif_hooks::Hook::addmul_empty_operand);
         return false;
     }
     if lhs.is_empty() {
+        #[cfg(recmo_uint_verif)]
+        crate::verif_hooks::hit(crate::verif_hooks::Hook::addmul_result_exhausted);
         return true;
     }
 
@@ -64,6 +68,8 @@ pub fn addmul(mut lhs: &mut [u64], mut a: &[u64], mut b: &[u64]) -> bool {
             let carry = add_nx1(rest, carry);
             overflow |= carry != 0;
         } else {
+            #[cfg(recmo_uint_verif)]
+            crate::verif_hooks::hit(crate::verif_hooks::Hook::addmul_truncated_row);
             overflow = true;
             if lhs.is_empty() {
                 break;
